@@ -351,6 +351,7 @@ class SimProcess:
             args, kwargs = pickle.loads(blob)
             fmem = {}
         self.pid = 1_000_000 + self.ordinal
+        simos.procs_by_pid[self.pid] = self
         parent = sim.me()
         ent = sim.spawn_entity(f'w{self.ordinal}', 'worker', False,
                                lambda e: self._bootstrap(e, args, kwargs))
@@ -544,6 +545,72 @@ class SimContext:
 
     def cpu_count(self):
         return self.simos.cpu_count
+
+
+class SimPsProcess:
+    """psutil.Process for a simulated task process: constructible while the process exists; afterwards the
+    cached / cheap readings still answer (create_time, children) and every other reading raises
+    psutil.NoSuchProcess, as psutil does for a process that has gone."""
+
+    def __init__(self, simos: 'SimOS', pid):
+        import psutil as _ps
+        self._ps = _ps
+        proc = simos.procs_by_pid.get(pid)
+        if proc is None or proc.ent is None or not proc.ent.alive:
+            raise _ps.NoSuchProcess(pid)
+        self._proc = proc
+        self.pid = pid
+        self._created = 1.9e9 + proc.ordinal
+
+    def _check(self):
+        if not self._proc.ent.alive:
+            raise self._ps.NoSuchProcess(self.pid)
+
+    def oneshot(self):
+        import contextlib
+        return contextlib.nullcontext()
+
+    def create_time(self):
+        return self._created
+
+    def children(self, recursive=False):
+        return []
+
+    def is_running(self):
+        return bool(self._proc.ent.alive)
+
+    def num_threads(self):
+        self._check()
+        return 1
+
+    def cpu_percent(self, interval=None):
+        self._check()
+        return 0.0
+
+    def memory_percent(self, memtype='rss'):
+        self._check()
+        return 0.1
+
+    def __getattr__(self, name):
+        if name.startswith('__') and name.endswith('__'):
+            raise AttributeError(name)
+        raise HarnessError(f'psutil.Process.{name} is not modelled by the simulator')
+
+
+class PsutilShim:
+    """`psutil` as seen by labtech.runners.process."""
+
+    def __init__(self, simos: 'SimOS'):
+        import psutil as _ps
+        self._simos = simos
+        self._ps = _ps
+        self.NoSuchProcess = _ps.NoSuchProcess
+
+    def Process(self, pid=None):
+        return SimPsProcess(self._simos, pid)
+
+    def __getattr__(self, name):
+        return getattr(self._ps, name)
 
 
 class ResourceTrackerShim:
@@ -896,6 +963,7 @@ class SimOS:
         self.kill_flush = kill_flush
         self.queues: list[SimQueue] = []
         self.sentinels: list = []             # started processes whose sentinel descriptor was asked for
+        self.procs_by_pid: dict = {}
         sim.kill_callbacks.append(self._on_kill)
         sim.exit_callbacks.append(self._on_exit)
         self.proc_count = 0
@@ -1011,6 +1079,7 @@ class SimOS:
         patch(proc_mod, 'signal', SignalShim(self))
         patch(proc_mod, 'sys', SysShim(self))
         patch(proc_mod, 'os', OsShim(self))
+        patch(proc_mod, 'psutil', PsutilShim(self))
         DatetimeShim._simos = self
         patch(base_mod, 'datetime', DatetimeShim)
         fm = ForkMemoryDict(proc_mod._RUNNER_FORK_MEMORY)
